@@ -21,7 +21,11 @@ MANIFEST = dict(
          "evaluated over a domain of ordered streams (items / consecutive chunks of the iterable, per-element terms, futures, containers; comprehensions, "
          "helper functions and helper generators of the package are followed) and must be the list of fn(x) over the items in input order, built inside "
          "the executor's with-block: from Executor.map, or from submit() with the futures kept in submission order and drained first-in first-out; "
-         "completion-ordered collection APIs, LIFO draining and reordering are violations. Sorts: an anchored function that only delegates to a shared "
+         "completion-ordered collection APIs, LIFO draining and reordering are violations; a value-range analysis (reaching definitions, "
+         "nproc >= 1, chunksize >= 1, len() >= 0 refined by the tests that control the use) decides that the worker count and chunk size handed to the "
+         "executor are positive for every input, the empty one included. Early exits of the sorts: every test that lets a sort leave without its work call is "
+         "solved as a condition on the number of elements n of the range and on the adjacent pairs it compares, and must imply n <= 1 or that all "
+         "n-1 pairs of neighbouring keys are in order. Sorts: an anchored function that only delegates to a shared "
          "helper is read as the helper's body with the arguments substituted, statement-level helper procedures inlined and tests on a literal None "
          "decided; pending ranges kept on an explicit list worked off by a loop count as the ranges handed on. Key-value partition: every store to the key array is "
          "paired with the same-index store to the value array and the skeleton equals the plain partition; a typestate analysis of the vacated "
@@ -45,7 +49,10 @@ MANIFEST = dict(
 SEMANTIC = ('R20.gen', 'R20.isplit', 'R20.null', 'R20.zero', 'R20.perm', 'R20.pmap',
             # decided by term equality on the evaluated element / range terms; they give "not recognised" themselves
             'R20.split::esutil.numpy_util.splitarray::consecutive-fixed-size-slices', 'R20.split::esutil.numpy_util.splitarray::chunk-count-is-ceil',
-            'R20.sort::esutil.algorithm._quicksort::recursion', 'R20.sort::esutil.algorithm._quicksort_keyvalue::recursion')
+            'R20.sort::esutil.algorithm._quicksort::recursion', 'R20.sort::esutil.algorithm._quicksort_keyvalue::recursion',
+            # decided by solving the tests that lead around the work call (linear constraints on the number of elements, positions compared)
+            'R20.sort::esutil.algorithm.quicksort::sorts-unless-nothing-to-do', 'R20.sort::esutil.algorithm.quicksort_keyvalue::sorts-unless-nothing-to-do',
+            'R20.sort::esutil.algorithm._quicksort::sorts-unless-nothing-to-do', 'R20.sort::esutil.algorithm._quicksort_keyvalue::sorts-unless-nothing-to-do')
 
 
 def run(chk):
@@ -1309,6 +1316,177 @@ def _unknown_in(v):
     return isinstance(v, tuple) and any(_unknown_in(x) for x in v if isinstance(x, tuple) or x is None)
 
 
+_INF = float("inf")
+
+
+def _len_bounds(facts):
+    """{text of X: k} for the facts (see _rel) that say len(X) >= k"""
+    out = {}
+    for f in facts:
+        x, k = None, None
+        if f.startswith("truthy "):
+            x, k = f[7:], 1
+            if x.startswith("len(") and x.endswith(")"):
+                x = x[4:-1]
+        else:
+            for sym, add in ((" < len(", 1), (" <= len(", 0), (" != len(", None)):
+                if sym in f and f.endswith(")"):
+                    a, b = f.split(sym, 1)
+                    try:
+                        a = int(a)
+                    except ValueError:
+                        break
+                    if add is None:
+                        if a != 0:
+                            break
+                        x, k = b[:-1], 1
+                    else:
+                        x, k = b[:-1], a + add
+                    break
+        if x is not None and k is not None and k > out.get(x, 0):
+            out[x] = k
+    return out
+
+
+class _Range:
+    """Value-range analysis of an integer expression at a CFG node: (lo, hi) such that the value lies in [lo, hi] for EVERY input the
+    property quantifies over, or None when a sub-term is not understood.  Names are followed through their reaching definitions;
+    a parameter stands for the range `dom` gives it as passed; len(X) is >= 0, and >= k where a test that controls the node (or the
+    arm of a conditional expression) says so about the same binding of X."""
+
+    def __init__(self, cfg, view, rin, dom):
+        self.cfg, self.view, self.rin, self.dom = cfg, view, rin, dom
+        self.seen = []      # definitions that were followed (for the message)
+        self._facts = {}
+
+    def facts_at(self, n):
+        """{X: (k, defs of X where the test was made)} from the tests controlling n"""
+        if n.id not in self._facts:
+            out = {}
+            for b, lab in self.view.controlling_branches(n):
+                if (b.kind == "branch" or (b.kind == "loop" and isinstance(b.ast, ast.While))) and lab in ("T", "F"):
+                    for x, k in _len_bounds(_rel(b.ast.test, lab == "F")).items():
+                        d = self.rin.get(b.id, {}).get(x)
+                        if d and len(d) == 1 and k > out.get(x, (0, None))[0]:
+                            out[x] = (k, frozenset(d))
+            self._facts[n.id] = out
+        return self._facts[n.id]
+
+    @staticmethod
+    def join(a, b):
+        return (min(a[0], b[0]), max(a[1], b[1]))
+
+    def ev(self, e, at, facts=None, depth=0):
+        if depth > 10:
+            return None
+        facts = dict(facts or {})
+        for x, v in self.facts_at(at).items():
+            if v[0] > facts.get(x, (0, None))[0]:
+                facts[x] = v
+        if isinstance(e, ast.Constant):
+            if isinstance(e.value, bool) or not isinstance(e.value, int):
+                return None
+            return (e.value, e.value)
+        if isinstance(e, ast.Name):
+            defs = self.rin.get(at.id, {}).get(e.id)
+            if not defs:
+                return None
+            out = None
+            for d in sorted(defs):
+                if d == self.cfg.entry.id:
+                    r = self.dom.get(e.id)
+                else:
+                    dn = self.cfg.node(d)
+                    a = dn.ast
+                    if dn.kind != "stmt" or not isinstance(a, ast.Assign) or len(a.targets) != 1 or not isinstance(a.targets[0], ast.Name):
+                        return None
+                    if norm(a) not in self.seen:
+                        self.seen.append(norm(a))
+                    r = self.ev(a.value, dn, facts, depth + 1)
+                if r is None:
+                    return None
+                out = r if out is None else self.join(out, r)
+            return out
+        if isinstance(e, ast.UnaryOp) and isinstance(e.op, (ast.USub, ast.UAdd)):
+            r = self.ev(e.operand, at, facts, depth + 1)
+            if r is None:
+                return None
+            return (-r[1], -r[0]) if isinstance(e.op, ast.USub) else r
+        if isinstance(e, ast.BinOp):
+            a, b = self.ev(e.left, at, facts, depth + 1), self.ev(e.right, at, facts, depth + 1)
+            if a is None or b is None:
+                return None
+            if isinstance(e.op, ast.Add):
+                return (a[0] + b[0], a[1] + b[1])
+            if isinstance(e.op, ast.Sub):
+                return (a[0] - b[1], a[1] - b[0])
+
+            def mul(x, y):
+                return 0 if (x == 0 or y == 0) else x * y
+
+            def fdiv(x, y):
+                if abs(x) == _INF:
+                    return x
+                if y == _INF:
+                    return 0 if x >= 0 else -1
+                return x // y
+            if isinstance(e.op, ast.Mult):
+                c = [mul(x, y) for x in a for y in b]
+                return (min(c), max(c))
+            if isinstance(e.op, ast.FloorDiv) and b[0] >= 1:
+                c = [fdiv(x, y) for x in a for y in b]
+                return (min(c), max(c))
+            return None
+        if isinstance(e, ast.BoolOp) and isinstance(e.op, ast.Or):
+            out = None
+            for i, v in enumerate(e.values):
+                r = self.ev(v, at, facts, depth + 1)
+                if r is None:
+                    return None
+                last = i == len(e.values) - 1
+                parts = [r] if last else ([(r[0], min(r[1], -1))] if r[0] < 0 else []) + ([(max(r[0], 1), r[1])] if r[1] >= 1 else [])
+                for p_ in parts:
+                    out = p_ if out is None else self.join(out, p_)
+                if not last and not (r[0] <= 0 <= r[1]):
+                    break               # never falsy: the later operands are not reached
+            return out
+        if isinstance(e, ast.IfExp):
+            arms = []
+            for arm, neg in ((e.body, False), (e.orelse, True)):
+                f2 = dict(facts)
+                for x, k in _len_bounds(_rel(e.test, neg)).items():
+                    d = self.rin.get(at.id, {}).get(x)
+                    if d and len(d) == 1 and k > f2.get(x, (0, None))[0]:
+                        f2[x] = (k, frozenset(d))
+                arms.append(self.ev(arm, at, f2, depth + 1))
+            if arms[0] is None or arms[1] is None:
+                return None
+            return self.join(*arms)
+        if isinstance(e, ast.Call) and not e.keywords and not any(isinstance(a, ast.Starred) for a in e.args):
+            cn = call_name(e)
+            if isinstance(e.func, ast.Name) and cn == "len" and len(e.args) == 1:
+                x = norm(e.args[0])
+                k, d = facts.get(x, (0, None))
+                if k and d != frozenset(self.rin.get(at.id, {}).get(x) or ()):
+                    k = 0                   # the test was about another binding of the name
+                return (k, _INF)
+            if isinstance(e.func, ast.Name) and cn in ("min", "max") and len(e.args) >= 2:
+                rs = [self.ev(a, at, facts, depth + 1) for a in e.args]
+                known = [r for r in rs if r is not None]
+                if len(known) < len(rs):
+                    # an operand that is not understood cannot lower a maximum
+                    if cn == "max" and known:
+                        return (max(r[0] for r in known), _INF)
+                    return None
+                f = min if cn == "min" else max
+                return (f(r[0] for r in rs), f(r[1] for r in rs))
+            if isinstance(e.func, ast.Name) and cn == "int" and len(e.args) == 1:
+                return self.ev(e.args[0], at, facts, depth + 1)
+            if cn == "cpu_count" and not e.args:
+                return (1, _INF)
+        return None
+
+
 def pmap(chk, repo):
     fi = repo.func("esutil.pbar.pmap")
     chk.analysed_unit(fi.qualname)
@@ -1332,6 +1510,20 @@ def pmap(chk, repo):
     cfg = cfg_of(fi)
     rin, _ = cfg.view().reaching_defs()
     inside = {id(x) for x in ast.walk(w)}
+    # the executor accepts only a positive worker count (or None): max_workers <= 0 is a ValueError before anything is mapped.  The
+    # value range of the argument is computed for every nproc >= 1 and every number of items, none included.
+    rng = _Range(cfg, cfg.view(), rin, {p_: (1, _INF) for p_ in ("nproc", "chunksize") if p_ in fi.params})
+    wn = rules.node_of_stmt(cfg, w)
+    if mw is None or (isinstance(mw, ast.Constant) and mw.value is None):
+        okw, rtxt = True, "the executor's default"
+    else:
+        r = rng.ev(mw, wn) if wn is not None else None
+        okw = None if r is None else r[0] >= 1
+        rtxt = "not understood" if r is None else "its value range over all inputs is [%s, %s]" % r
+    chk.ob("R20.pmap", q + "::worker-count-positive", okw, fi.where(w),
+           "the worker count `%s` handed to the executor is at least 1 for every nproc >= 1 and every input, the empty one included (%s%s)%s"
+           % (norm(mw) if mw is not None else None, rtxt, ("; " + "; ".join(rng.seen)) if rng.seen else "",
+              ": for an input on which it is 0 the executor raises ValueError and pmap does not return list(map(fn, items))" if okw is False else ""))
 
     def resolve(name, at):
         if at is None:
@@ -1398,6 +1590,18 @@ def pmap(chk, repo):
     else:
         okr = None
     where = fi.where(par.map_chunksize[0][0]) if par.map_chunksize else fi.where(w)
+    # Executor.map rejects chunksize < 1: the chunk size handed on must be positive for every chunksize >= 1 and every input
+    for mc, c in par.map_chunksize:
+        cn_ = next((n for n in cfg.nodes if n.kind in ("stmt", "return") and n.ast is not None and any(x is mc for x in ast.walk(n.ast))), None)
+        if c is None or cn_ is None:
+            continue                    # the default of 1, or a map call in a helper (its chunk size is that helper's parameter)
+        rng2 = _Range(cfg, cfg.view(), rin, rng.dom)
+        r = rng2.ev(c, cn_)
+        okc = None if r is None else r[0] >= 1
+        chk.ob("R20.pmap", q + "::chunksize-positive", okc, fi.where(mc),
+               "the chunk size `%s` handed to Executor.map is at least 1 for every chunksize >= 1 and every input (%s%s)"
+               % (norm(c), "not understood" if r is None else "its value range over all inputs is [%s, %s]" % r,
+                  ("; " + "; ".join(rng2.seen)) if rng2.seen else ""))
     if not (okr is None and res is False):      # a result of another kind is reported below
         chk.ob("R20.pmap", q + "::map-roles", okr, where, "the mapped function is fn, its inputs are the items of iterable, the chunk size is chunksize "
                "(ex.map(fn, iterable, chunksize=chunksize) or the equivalent with submit)")
@@ -1743,6 +1947,9 @@ def keyvalue(chk, repo):
         ok, found = _sort_ranges(fi, part, nargs)
         chk.ob("R20.sort", q2 + "::recursion", ok, fi.where(),
                "partition [start, end], then sort both [start, split-1] and [split+1, end] (by recursion, or by carrying on in a loop) (%s)" % found)
+        pcs = [x for x in walk_no_nested(fi.node) if isinstance(x, ast.Call) and call_name(x) == part]
+        if ok and len(pcs) == 1 and len(pcs[0].args) == nargs + 2:
+            sorts_unless_idle(chk, fi, q2, pcs[0], fi.params[:nargs], "partitioning the range (`%s`)" % norm(pcs[0]))
         cfg = cfg_of(fi)
         v = cfg.view()
         lo, hi = fi.params[nargs:nargs + 2] if len(fi.params) >= nargs + 2 else ("start", "end")
@@ -2379,6 +2586,498 @@ def _isdoc(x):
     return isinstance(x, ast.Expr) and isinstance(x.value, ast.Constant) and isinstance(x.value.value, str)
 
 
+# ---------------------------------------------------------------------------
+# R20.sort ...::sorts-unless-nothing-to-do.  A sort may leave its input alone only when there is nothing to do.  Every test that
+# decides whether the work call (the driver call of a public sort, the partition call of a driver) is reached is read as a condition
+# on the range [lo, hi] handed to that call: with n = hi - lo + 1 elements, the side of the test that leaves without the work must
+# imply n <= 1, or that every adjacent pair (x, x+1), lo <= x < hi, of the key array was found in order.  The condition is put in
+# disjunctive form; each conjunct is a constraint on n (a set of integers, solved exactly from the linear comparison), a set of
+# positions x whose pair was compared (interval with end points a + b*n), or not understood.  Whether the positions cover
+# [0, n-1) for every n the constraints allow is decided exactly: the order of the end points is fixed above a bound computed from
+# their constants, below it each n is a separate case.  Nothing is executed.
+_NSYM = sp.Symbol("n_elements", integer=True)
+
+
+def _affine(t, sym=_NSYM):
+    """(a, b) with t == a + b*sym for integers a, b; else None"""
+    try:
+        t = sp.expand(t)
+        b = t.coeff(sym)
+        a = sp.expand(t - b * sym)
+        if a.is_Integer and b.is_Integer:
+            return int(a), int(b)
+    except Exception:
+        pass
+    return None
+
+
+def _iset_and(A, B):
+    """intersection of two sets of integers given as lists of closed intervals"""
+    out = []
+    for a in A:
+        for b in B:
+            lo, hi = max(a[0], b[0]), min(a[1], b[1])
+            if lo <= hi:
+                out.append((lo, hi))
+    return sorted(out)
+
+
+def _solve_linear(m, k, op):
+    """the integers L with m*L + k <op> 0, op one of < <= == !=, as a list of closed intervals"""
+    ALL = [(-_INF, _INF)]
+    if m == 0:
+        return ALL if {"<": k < 0, "<=": k <= 0, "==": k == 0, "!=": k != 0}[op] else []
+    if op == "<":
+        return [(-_INF, (-k - 1) // m)] if m > 0 else [(-((-(k + 1)) // (-m)), _INF)]
+    if op == "<=":
+        return [(-_INF, (-k) // m)] if m > 0 else [(-((-k) // (-m)), _INF)]
+    pt = (-k) // m if (-k) % m == 0 else None
+    if op == "==":
+        return [(pt, pt)] if pt is not None else []
+    return ALL if pt is None else [(-_INF, pt - 1), (pt + 1, _INF)]
+
+
+def _covered(ivs, S):
+    """do the position intervals [lo, hi) (end points (a, b) meaning a + b*n) cover 0 .. n-2 for every n in S (n >= 2)?
+    (True, None) / (False, an n for which a position is left out, that position or None) / (None, None, None)"""
+    S = _iset_and(S, [(2, _INF)])
+    if not S:
+        return True, None, None
+    consts = [abs(e[0]) for iv in ivs for e in iv] + [1]
+    if max(consts) > 200:
+        return None, None, None
+    M = 2 * max(consts) + 3                 # from here on the order of all end points (and of 0 and n-1) no longer changes
+    for lo, hi in S:
+        n = lo
+        while n <= hi and n < M:
+            for x in range(int(n) - 1):
+                if not any(a[0] + a[1] * n <= x < b[0] + b[1] * n for a, b in ivs):
+                    return False, int(n), x
+            n += 1
+    if S[-1][1] >= M:
+        def key(e):
+            return (e[1], e[0])
+        cur, target, used = (0, 0), (-1, 1), set()
+        while key(target) > key(cur):
+            step = [k for k, (a, b) in enumerate(ivs) if k not in used and key(a) <= key(cur) < key(b)]
+            if not step:
+                return False, int(max(M, S[-1][0])), None
+            used.add(step[0])
+            cur = ivs[step[0]][1]
+    return True, None, None
+
+
+class _Idle:
+    """reads the tests that let a sort return without doing its work (see above)"""
+
+    def __init__(self, fi, arrays, nkeys, lo_e, hi_e):
+        self.fi, self.fn = fi, fi.node
+        self.arrays = list(arrays)
+        self.keyarr = arrays[0]
+        self.ok_setup = False
+        self.sx = _Sx({})
+        self.hsym = sp.Symbol("len(<input>)", integer=True)
+        self.lens = {}
+        for p_ in self.arrays:
+            for t in ("len(%s)" % p_, "%s.size" % p_, "%s.shape[0]" % p_):
+                self.lens[sp.Symbol(t, integer=True)] = self.hsym
+        a_t, b_t = self.raw(lo_e), self.raw(hi_e)
+        if a_t is None or b_t is None or not _known(a_t) or not _known(b_t):
+            return
+        # hi = lo + n - 1, solved for one symbol of hi that lo does not mention
+        cands = [h for h in sorted(b_t.free_symbols - a_t.free_symbols, key=lambda x: (x != self.hsym, str(x)))
+                 if sp.expand(b_t).coeff(h) in (1, -1) and not sp.expand(b_t - sp.expand(b_t).coeff(h) * h).has(h)]
+        if not cands:
+            return
+        h = cands[0]
+        c = sp.expand(b_t).coeff(h)
+        self.sub = {h: sp.expand((_NSYM - 1 + a_t - (b_t - c * h)) / c)}
+        self.lo = a_t
+        self.ok_setup = True
+
+    def raw(self, e):
+        try:
+            v = self.sx.ev(rules.expand(e, self.fn))
+        except Exception:
+            return None
+        if not isinstance(v, sp.Basic):
+            return None
+        return sp.expand(v.subs(self.lens))
+
+    def term(self, e):
+        v = self.raw(e)
+        return None if v is None else sp.expand(v.subs(self.sub))
+
+    def rel(self, t):
+        """a position relative to the start of the range, as (a, b)"""
+        return None if t is None else _affine(sp.expand(t - self.lo.subs(self.sub)))
+
+    # -- atoms ----------------------------------------------------------
+    def length_atom(self, t, truth):
+        """a test on the number of elements: the set of n for which it has the value `truth`, or None"""
+        ops = {ast.Lt: "<", ast.LtE: "<=", ast.Gt: ">", ast.GtE: ">=", ast.Eq: "==", ast.NotEq: "!="}
+        neg = {"<": ">=", "<=": ">", ">": "<=", ">=": "<", "==": "!=", "!=": "=="}
+        if isinstance(t, ast.Compare) and len(t.ops) == 1 and type(t.ops[0]) in ops:
+            a, b = self.term(t.left), self.term(t.comparators[0])
+            if a is None or b is None:
+                return None
+            d = _affine(a - b)
+            if d is None or not (a.has(_NSYM) or b.has(_NSYM)):
+                return None
+            op = ops[type(t.ops[0])]
+            if not truth:
+                op = neg[op]
+            k, m = d
+            if op in (">", ">="):
+                k, m, op = -k, -m, {">": "<", ">=": "<="}[op]
+            return _solve_linear(m, k, op)
+        if isinstance(t, ast.Compare) and len(t.ops) == 1 and isinstance(t.ops[0], (ast.In, ast.NotIn)) \
+                and isinstance(t.comparators[0], (ast.Tuple, ast.List, ast.Set)) and t.comparators[0].elts:
+            a = self.term(t.left)
+            if a is None or not a.has(_NSYM):
+                return None
+            isin = isinstance(t.ops[0], ast.In) == truth
+            out = [] if isin else [(-_INF, _INF)]
+            for el in t.comparators[0].elts:
+                b = self.term(el)
+                d = _affine(a - b) if b is not None else None
+                if d is None:
+                    return None
+                if isin:
+                    out = sorted(out + _solve_linear(d[1], d[0], "=="))
+                else:
+                    out = _iset_and(out, _solve_linear(d[1], d[0], "!="))
+            return out
+        # truthiness of the input, or of its length
+        x = t
+        if isinstance(x, ast.Name) and x.id in self.arrays:
+            x = ast.Call(func=ast.Name(id="len", ctx=ast.Load()), args=[x], keywords=[])
+        if (isinstance(x, ast.Call) and call_name(x) == "len" and isinstance(x.func, ast.Name)) or isinstance(x, (ast.Attribute, ast.BinOp)):
+            a = self.term(x)
+            d = _affine(a) if a is not None else None
+            if d is None or not a.has(_NSYM):
+                return None
+            return _solve_linear(d[1], d[0], "!=" if truth else "==")
+        return None
+
+    def oriented(self, t, flip):
+        """(smaller side, larger side, strict) of an order comparison, `flip` when it is read negated"""
+        while isinstance(t, ast.UnaryOp) and isinstance(t.op, ast.Not):
+            t, flip = t.operand, not flip
+        if not (isinstance(t, ast.Compare) and len(t.ops) == 1 and isinstance(t.ops[0], (ast.Lt, ast.LtE, ast.Gt, ast.GtE))):
+            return None
+        a, b, op = t.left, t.comparators[0], type(t.ops[0])
+        if flip:
+            op = {ast.Lt: ast.GtE, ast.LtE: ast.Gt, ast.Gt: ast.LtE, ast.GtE: ast.Lt}[op]
+        return (a, b) if op in (ast.Lt, ast.LtE) else (b, a)
+
+    def which_array(self, name):
+        if name == self.keyarr:
+            return True
+        if name in self.arrays:
+            return ("bad", "it looks at the order of `%s`, which says nothing about the order of the keys `%s`" % (name, self.keyarr))
+        return None
+
+    def pair(self, small, large):
+        """positions compared by `A[small] <= A[large]`: ('cover', [(lo, hi)]) / ('bad', why) / None"""
+        d = _affine(sp.expand(large - small))
+        if d is None or d[1] != 0:
+            return None, None
+        if d[0] == -1:
+            return "bad", "it finds the pairs in DEscending order"
+        if d[0] != 1:
+            return "bad", "it compares elements %d apart, which does not put neighbours in order" % d[0]
+        return "adjacent", None
+
+    def index_term(self, e):
+        """term of an index expression; a negative literal counts from the end"""
+        t = self.term(e)
+        if t is not None and t.is_Integer and t < 0:
+            t = sp.expand((t + self.hsym).subs(self.sub))
+        return t
+
+    def scan(self, comp, flip):
+        """`<compare> for i in range(..)` / `for a, b in zip(A, A[1:])` / `in pairwise(A)`"""
+        if len(comp.generators) != 1:
+            return None
+        g = comp.generators[0]
+        if g.ifs or g.is_async:
+            return None
+        o = self.oriented(comp.elt, flip)
+        if o is None:
+            return None
+        small, large = o
+        it = g.iter
+        if not (isinstance(it, ast.Call) and not it.keywords and not any(isinstance(a, ast.Starred) for a in it.args)):
+            return None
+        cn = call_name(it)
+        if cn in ("range", "xrange") and isinstance(it.func, ast.Name) and isinstance(g.target, ast.Name) and 1 <= len(it.args) <= 3:
+            if len(it.args) == 3 and not (isinstance(it.args[2], ast.Constant) and it.args[2].value == 1):
+                return None
+            isym = sp.Symbol(g.target.id, integer=True)
+            r_lo = sp.Integer(0) if len(it.args) == 1 else self.term(it.args[0])
+            r_hi = self.term(it.args[0] if len(it.args) == 1 else it.args[1])
+            if r_lo is None or r_hi is None or r_lo.has(isym) or r_hi.has(isym):
+                return None
+            idx = []
+            for s_ in (small, large):
+                if not (isinstance(s_, ast.Subscript) and isinstance(s_.value, ast.Name) and not isinstance(s_.slice, ast.Slice)):
+                    return None
+                w = self.which_array(s_.value.id)
+                if w is not True:
+                    return w
+                t = self.term(s_.slice)
+                if t is None or sp.expand(t - isym).has(isym):
+                    return None
+                idx.append(sp.expand(t - isym))
+            kind, why = self.pair(idx[0], idx[1])
+            if kind != "adjacent":
+                return (kind, why) if kind else None
+            lo, hi = self.rel(r_lo + idx[0]), self.rel(r_hi + idx[0])
+            if lo is None or hi is None:
+                return None
+            return ("cover", [(lo, hi)])
+        end = sp.expand(self.hsym.subs(self.sub))
+        if cn == "pairwise" and len(it.args) == 1 and isinstance(it.args[0], ast.Name):
+            srcs = [(it.args[0].id, sp.Integer(0), end - 1), (it.args[0].id, sp.Integer(1), end)]      # zip(A[:-1], A[1:])
+        elif cn in ("zip", "izip") and len(it.args) == 2:
+            srcs = []
+            for a in it.args:
+                if isinstance(a, ast.Name):
+                    srcs.append((a.id, sp.Integer(0), None))
+                elif isinstance(a, ast.Subscript) and isinstance(a.value, ast.Name) and isinstance(a.slice, ast.Slice) and a.slice.step is None:
+                    lo = self.index_term(a.slice.lower) if a.slice.lower is not None else sp.Integer(0)
+                    hi = self.index_term(a.slice.upper) if a.slice.upper is not None else None
+                    if lo is None or (a.slice.upper is not None and hi is None):
+                        return None
+                    srcs.append((a.value.id, lo, hi))
+                else:
+                    return None
+        else:
+            return None
+        if not (isinstance(g.target, ast.Tuple) and len(g.target.elts) == 2 and all(isinstance(x, ast.Name) for x in g.target.elts)):
+            return None
+        names = [x.id for x in g.target.elts]
+        if not (isinstance(small, ast.Name) and isinstance(large, ast.Name) and {small.id, large.id} == set(names) and small.id != large.id):
+            return None
+        for nm, _, _ in srcs:
+            w = self.which_array(nm)
+            if w is not True:
+                return w
+        starts = [srcs[k][1] for k in (0, 1)]
+        counts = []
+        for k in (0, 1):
+            hi = srcs[k][2] if srcs[k][2] is not None else end
+            over = _affine(sp.expand(hi - end))
+            if over is not None and over[1] == 0 and over[0] > 0:
+                hi = end                # a slice stops at the end of the sequence
+            counts.append(sp.expand(hi - srcs[k][1]))
+        d = _affine(counts[0] - counts[1])
+        if d is None or d[1] != 0:
+            return None
+        count = counts[0] if d[0] <= 0 else counts[1]
+        ks, kl = names.index(small.id), names.index(large.id)
+        kind, why = self.pair(starts[ks], starts[kl])
+        if kind != "adjacent":
+            return (kind, why) if kind else None
+        lo, hi = self.rel(starts[ks]), self.rel(starts[ks] + count)
+        if lo is None or hi is None:
+            return None
+        return ("cover", [(lo, hi)])
+
+    def atom(self, t, truth):
+        """('ok',) the input is in order / ('len', set of n) / ('cover', intervals) / ('bad', why) / None"""
+        if isinstance(t, ast.Constant) and isinstance(t.value, (bool, int)):
+            return ("len", [(-_INF, _INF)] if bool(t.value) == truth else [])
+        if isinstance(t, ast.Call) and isinstance(t.func, ast.Name) and t.func.id in ("all", "any") and len(t.args) == 1 and not t.keywords \
+                and isinstance(t.args[0], (ast.GeneratorExp, ast.ListComp)):
+            isall = t.func.id == "all"
+            r = self.scan(t.args[0], flip=not isall)
+            if r is None or isall == truth:
+                return r
+            if r[0] == "cover":
+                return ("bad", "it holds exactly when some pair is OUT of order")
+            return None
+        if isinstance(t, ast.Compare) and len(t.ops) == 1 and isinstance(t.ops[0], (ast.Eq, ast.NotEq)):
+            def plain(x):
+                if isinstance(x, ast.Call) and call_name(x) == "list" and len(x.args) == 1 and not x.keywords:
+                    x = x.args[0]
+                return x.id if isinstance(x, ast.Name) else None
+            for a, b in ((t.left, t.comparators[0]), (t.comparators[0], t.left)):
+                if isinstance(a, ast.Call) and isinstance(a.func, ast.Name) and a.func.id == "sorted" and len(a.args) == 1 and not a.keywords \
+                        and plain(a.args[0]) == self.keyarr and plain(b) == self.keyarr:
+                    return ("ok",) if isinstance(t.ops[0], ast.Eq) == truth else ("bad", "it holds exactly when the input is NOT in order")
+        if isinstance(t, (ast.Compare, ast.UnaryOp)):
+            o = self.oriented(t, not truth)
+            if o is not None and all(isinstance(x, ast.Subscript) and isinstance(x.value, ast.Name) and not isinstance(x.slice, ast.Slice) for x in o):
+                if o[0].value.id != o[1].value.id:
+                    return None
+                w = self.which_array(o[0].value.id)
+                if w is not True:
+                    return w
+                a, b = self.index_term(o[0].slice), self.index_term(o[1].slice)
+                if a is None or b is None:
+                    return None
+                kind, why = self.pair(a, b)
+                if kind != "adjacent":
+                    return None         # one comparison of two other elements: neither helps nor hurts
+                lo = self.rel(a)
+                return ("cover", [(lo, (lo[0] + 1, lo[1]))]) if lo is not None else None
+        s_ = self.length_atom(t, truth)
+        return ("len", s_) if s_ is not None else None
+
+    # -- conditions -----------------------------------------------------
+    def dnf(self, t, truth):
+        """the condition `t has the value truth` as a list of conjunctions of (atom, truth)"""
+        if isinstance(t, ast.UnaryOp) and isinstance(t.op, ast.Not):
+            return self.dnf(t.operand, not truth)
+        if isinstance(t, ast.BoolOp):
+            parts = [self.dnf(v, truth) for v in t.values]
+            if any(p_ is None for p_ in parts):
+                return None
+            if isinstance(t.op, ast.And) == truth:
+                out = [[]]
+                for p_ in parts:
+                    out = [x + y for x in out for y in p_]
+                    if len(out) > 32:
+                        return None
+                return out
+            return [c for p_ in parts for c in p_]
+        return [[(t, truth)]]
+
+    def idle_ok(self, test, truth):
+        """(verdict, why): whenever `test` has the value `truth` there is nothing to sort"""
+        test = rules.expand(test, self.fn)
+        d = self.dnf(test, truth)
+        if d is None:
+            return None, "the condition is too large to read"
+        verdict, text = True, ""
+        for conj in d:
+            S, ivs, unknown, bad = [(-_INF, _INF)], [], [], []
+            done = False
+            for t, tr in conj:
+                r = self.atom(t, tr)
+                if r is None:
+                    unknown.append(norm(t))
+                elif r[0] == "ok":
+                    done = True
+                elif r[0] == "len":
+                    S = _iset_and(S, r[1])
+                elif r[0] == "cover":
+                    ivs += r[1]
+                else:
+                    bad.append(r[1])
+            if done:
+                continue
+            cov, n, x = _covered(ivs, S)
+            if cov is True:
+                continue
+            if cov is None or unknown:
+                if verdict is True:
+                    verdict, text = None, "not understood: `%s`" % (unknown[0] if unknown else norm(test))[:80]
+                continue
+            what = ("the pair at positions (%d, %d) of the range is not compared" % (x, x + 1)) if (x is not None and ivs) else \
+                   ("the pairs up to the end of the range are not all compared" if ivs else "no pair of neighbours is compared")
+            verdict = False
+            text = "for a range of %d elements %s%s" % (n, what, ("; " + "; ".join(bad)) if bad else "")
+            break
+        return verdict, text
+
+
+def _first_entry_truthy(fn, loop, pm):
+    """`while W:` (or len(W), len(W) > 0) where W is bound once, in front of the loop, to a non-empty display and otherwise only
+    touched inside the loop: the loop body runs before the loop can be left, so leaving it is not a way around the body"""
+    t = loop.test
+    if isinstance(t, ast.Compare) and len(t.ops) == 1 and isinstance(t.ops[0], (ast.Gt, ast.NotEq)) and norm(t.comparators[0]) == "0":
+        t = t.left
+    if isinstance(t, ast.Call) and isinstance(t.func, ast.Name) and t.func.id == "len" and len(t.args) == 1:
+        t = t.args[0]
+    if not isinstance(t, ast.Name):
+        return False
+    inside = {id(x) for x in ast.walk(loop)}
+    outside = [x for x in walk_no_nested(fn) if isinstance(x, ast.Name) and x.id == t.id and id(x) not in inside]
+    if len(outside) != 1 or not isinstance(outside[0].ctx, ast.Store):
+        return False
+    st = pm.get(id(outside[0]))
+    if not (isinstance(st, ast.Assign) and len(st.targets) == 1 and st.targets[0] is outside[0] and isinstance(st.value, (ast.List, ast.Tuple)) and st.value.elts
+            and not any(isinstance(e, ast.Starred) for e in st.value.elts)):
+        return False
+    return st in fn.body and loop in fn.body and fn.body.index(st) < fn.body.index(loop)
+
+
+def sorts_unless_idle(chk, fi, q, work, arrays, what):
+    """every way around the work call `work` (ast.Call with the arrays, then lo and hi) is taken only when there is nothing to sort"""
+    import networkx as nx
+    key = q + "::sorts-unless-nothing-to-do"
+    msg = "every path through %s reaches %s unless the range has fewer than two elements or every pair of neighbouring keys in it was found in order" % (fi.name, what)
+    cfg = cfg_of(fi)
+    view = cfg.view()
+    wn = next((n for n in cfg.nodes if any(c is work for c in rules.stmts_calls(n))), None)
+    if wn is None:
+        return
+    if not view.reachable(wn):
+        chk.ob("R20.sort", key, False, fi.where(work), msg + ": `%s` cannot be reached" % norm(work))
+        return
+    nargs = len(arrays)
+    idle = _Idle(fi, arrays, nargs, work.args[nargs], work.args[nargs + 1])
+    rin, _ = view.reaching_defs()
+    pm = _parent_map(fi.node)
+    verdict, notes, where = True, [], fi.where(work)
+    for b, lab in view.controlling_branches(wn):
+        if lab not in ("T", "F"):
+            continue
+        other = [j for j in view.g.successors(b.id) if lab not in view.g[b.id][j]["labels"]]
+        ex = cfg.exit.id
+        if other and not any(j == ex or ex in nx.descendants(view.g, j) for j in other):
+            continue                    # the other side only raises: the input is rejected, not returned unsorted
+        if b.kind == "loop" and isinstance(b.ast, ast.While) and lab == "T" and _first_entry_truthy(fi.node, b.ast, pm):
+            continue
+        if not (b.kind == "branch" or (b.kind == "loop" and isinstance(b.ast, ast.While))):
+            if verdict is True:
+                verdict = None
+                notes.append("`%s` is reached only inside `for %s in %s`" % (norm(work), norm(b.ast.target), norm(b.ast.iter)[:40]))
+            continue
+        # the side that leaves without the work call does something to the arrays itself: sorted by other means, not judged here
+        side, todo = set(), list(other)
+        while todo:
+            j = todo.pop()
+            if j in side or j == b.id or j == wn.id:
+                continue
+            side.add(j)
+            todo.extend(view.g.successors(j))
+        own = False
+        for j in side:
+            nd = cfg.node(j)
+            roots = [nd.ast.test] if nd.kind == "branch" or (nd.kind == "loop" and isinstance(nd.ast, ast.While)) else \
+                ([nd.ast.iter] if nd.kind == "loop" else ([nd.ast] if nd.kind in ("stmt", "return") and nd.ast is not None else []))
+            for r_ in roots:
+                for x in ast.walk(r_):
+                    if isinstance(x, ast.Subscript) and isinstance(x.ctx, (ast.Store, ast.Del)) and isinstance(x.value, ast.Name) and x.value.id in arrays:
+                        own = True
+                    if isinstance(x, ast.Call) and not (isinstance(x.func, ast.Name) and x.func.id in ("len", "all", "any", "range", "zip", "sorted", "list", "isinstance")):
+                        if any(isinstance(a, ast.Name) and a.id in arrays for a in list(x.args) + [k.value for k in x.keywords]) or \
+                                (isinstance(x.func, ast.Attribute) and isinstance(x.func.value, ast.Name) and x.func.value.id in arrays):
+                            own = True
+        test = b.ast.test
+        # the names the test reads stand for what they stand for at the work call
+        names = {x.id for x in ast.walk(test) if isinstance(x, ast.Name) and isinstance(x.ctx, ast.Load)}
+        moved = [nm for nm in sorted(names) if nm in rin.get(b.id, {}) and rin.get(b.id, {}).get(nm) != rin.get(wn.id, {}).get(nm)]
+        if own or moved or not idle.ok_setup:
+            v, why = None, ("the side that leaves works on the arrays itself" if own else
+                            ("`%s` is re-bound between the test and the call" % moved[0] if moved else "the range handed to the call is not recognised"))
+        else:
+            v, why = idle.idle_ok(test, lab == "F")
+        if v is False:
+            verdict, where = False, fi.where(test)
+            notes = ["when `%s` is %s, %s returns without %s, but that does not mean there is nothing to sort: %s -- such input is returned unsorted"
+                     % (norm(rules.expand(test, fi.node))[:160], "true" if lab == "F" else "false", fi.name, what, why)]
+            break
+        if v is None and verdict is True:
+            verdict = None
+            notes.append("`%s`: %s" % (norm(test)[:80], why))
+    chk.ob("R20.sort", key, verdict, where, msg + ((": " + "; ".join(notes)) if notes else ""))
+
+
 def quicksort(chk, repo):
     for q, callee, n in (("esutil.algorithm.quicksort", "_quicksort", 1), ("esutil.algorithm.quicksort_keyvalue", "_quicksort_keyvalue", 2)):
         fi = repo.func(q)
@@ -2394,6 +3093,8 @@ def quicksort(chk, repo):
             lo, hi = sx.ev(calls[0].args[n]), sx.ev(calls[0].args[n + 1])
             ok = _teq(lo, 0) is True and any(_teq(hi, sp.Symbol("len(%s)" % p, integer=True) - 1) is True for p in fi.params[:n])
         chk.ob("R20.sort", q + "::whole-range", ok, fi.where(), "the public sort covers the whole input: %s(<arrays>, 0, len-1)" % callee)
+        if ok:
+            sorts_unless_idle(chk, fi, q, calls[0], fi.params[:n], "the call `%s`" % norm(calls[0]))
 
 
 # ---------------------------------------------------------------------------
